@@ -15,7 +15,7 @@ def valBytes (pre : Char) (v : Int) : List UInt8 :=
 
 def hashCol (k : String) (v : Int) (seed : UInt32) : UInt32 :=
   match k with
-  | "i64" | "int" | "u64" => hash64 (intToU64 v) seed
+  | "i64" | "int" | "u64" | "uint" | "uptr" => hash64 (intToU64 v) seed
   | "i32" | "i16" | "i8" | "u8" | "u16" | "u32" => hash32 (intToU32 v) seed
   | "str" => murmur3 (valBytes 'k' v) seed
   | "bytes" => murmur3 (valBytes 'b' v) seed
